@@ -1,6 +1,6 @@
 (* Extract.v — extraction of the executable model to OCaml (ExtrOcamlBasic only: bool, option, unit, list,
    prod, sumbool, sumor mapped to OCaml's; N, Z, positive, nat stay the extracted inductive types). *)
-Require Import Base EncoderModel Timestamp.
+Require Import Base Cbor EncoderModel Timestamp DecoderModel.
 Require Extraction.
 Require Import ExtrOcamlBasic.
 Extraction Blacklist String List Nat Int.
@@ -8,4 +8,6 @@ Extraction "model.ml"
   N.add N.mul N.sub N.div_eucl N.compare N.of_nat N.to_nat Z.of_N Z.to_N Z.opp
   Z.compare
   enc_init estep eruns stream flush
-  get_time_offset add_time_offset ts_lt ts_le bt_init bt_add.
+  get_time_offset add_time_offset ts_lt ts_le bt_init bt_add
+  mcode DEC_BUFFER_SIZE run run_phys phys_init logical peek_type read_unsigned read_negative read_integer read_bool
+  read_bytestring read_textstring read_array_start read_map_start read_break skip_item.
